@@ -205,3 +205,52 @@ Definition key47 (x : Z) : key :=
 Lemma written_key_not_injective :
   exists k1 k2 top, key_eqb k1 k2 = false /\ wkey k1 top = wkey k2 top.
 Proof. exists (key47 1), (key47 2), 0. split; vm_compute; reflexivity. Qed.
+
+(* ---------- the per-insert metric cache (finding F-C03c) ---------- *)
+
+Definition res_flags (r : mres) : skips := match r with MDirect f | MFound f => f | MUnknown => skips0 end.
+
+Section Cache.
+  Variable resolve : Z -> mres.                       (* what a lookup of an id finds: built-ins and the journal *)
+  Hypothesis zero_plain : res_flags (resolve 0) = skips0.   (* the cache starts as "metric 0, no flags" *)
+
+  Definition cache_inv (c : mcache) : Prop := mc_flags c = res_flags (resolve (mc_last c)).
+
+  Lemma mc_skips_fixed c id : cache_inv c ->
+    cache_inv (fst (mc_skips true c id (resolve id))) /\ snd (mc_skips true c id (resolve id)) = res_flags (resolve id).
+  Proof.
+    intros I. unfold mc_skips. destruct (resolve id) eqn:R.
+    - simpl. split; [exact I | reflexivity].
+    - destruct (Z.eqb_spec id (mc_last c)) as [E|N]; simpl.
+      + split; [exact I|]. rewrite I, <- E, R. reflexivity.
+      + unfold cache_inv. simpl. rewrite R. split; reflexivity.
+    - destruct (Z.eqb_spec id (mc_last c)) as [E|N]; simpl.
+      + split; [exact I|]. rewrite I, <- E, R. reflexivity.
+      + unfold cache_inv. simpl. rewrite R. split; reflexivity.
+  Qed.
+
+  (* the repaired cache answers every lookup, after any sequence of earlier lookups, with the flags of that metric *)
+  Theorem cache_fixed_exact : forall ids c id,
+    cache_inv c -> mc_run true c (map (fun i => (i, resolve i)) (ids ++ [id])) = res_flags (resolve id).
+  Proof.
+    induction ids as [|a ids IH]; intros c id I.
+    - simpl. apply mc_skips_fixed. exact I.
+    - cbn [app map]. destruct (mc_skips_fixed c a I) as [I' _].
+      specialize (IH _ id I').
+      destruct (map (fun i => (i, resolve i)) (ids ++ [id])) eqn:M.
+      + destruct ids; discriminate.
+      + cbn [mc_run]. exact IH.
+  Qed.
+
+  Lemma cache0_inv : cache_inv mcache0.
+  Proof. unfold cache_inv. simpl. symmetry. exact zero_plain. Qed.
+End Cache.
+
+(* the cache as it is: a metric known to neither the built-ins nor the journal, looked up twice in a row after a
+   metric with skip flags, gets that metric's flags on the second lookup *)
+Definition ex_resolve (i : Z) : mres :=
+  if i =? 107 then MFound {| sk_max := true; sk_min := true; sk_sq := true |} else MUnknown.
+Lemma cache_faithful_refuted :
+  exists resolve ids id, res_flags (resolve 0) = skips0 /\
+    mc_run false mcache0 (map (fun i => (i, resolve i)) (ids ++ [id])) <> res_flags (resolve id).
+Proof. exists ex_resolve, [107; 1], 1. split; [reflexivity | vm_compute; discriminate]. Qed.
